@@ -1,10 +1,128 @@
 import Driver.Util
-open Lean Driver
+import GinjaxVerif.Model.C12
+open Lean Driver GinjaxVerif.C12
 
 namespace Driver.C12
 
-def handle (op : String) (_j : Json) : R Json := do
+/-- `{"shape":[..],"data":[..]}` with exact rational data; malformed arrays are refused -/
+def asBlock (j : Json) : R (Block Rat) := do
+  let shape ← listF asNat j "shape"
+  let data ← listF asRat j "data"
+  if data.length != Block.prod shape then throw "bad block: data length differs from the shape's product"
+  pure ⟨shape, data⟩
+
+def asKey (j : Json) : R Key := do
+  let l ← asList asNat j
+  match l with
+  | [k, p] => pure (k, p)
+  | _ => throw "bad key"
+
+/-- `[k, parity, block]` -/
+def asItem (j : Json) : R (Key × Block Rat) := do
+  let a ← asArr j
+  match a.toList with
+  | [k, p, b] => do pure ((← asNat k, ← asNat p), ← asBlock b)
+  | _ => throw "bad item"
+
+def asStep (j : Json) : R (Step Rat) := do
+  let s ← strF j "s"
+  match s with
+  | "setitem" => do pure (.setitem (← natF j "k", ← natF j "p") (← field j "b" >>= asBlock))
+  | "append" => do pure (.append (← natF j "k") (← natF j "p") (← field j "b" >>= asBlock) (← natF j "axis"))
+  | "concat" => do pure (.concat (← listF asItem j "items") (← natF j "axis"))
+  | "copy" => pure .copy
+  | "tree" => pure .tree
+  | "from_vector" => pure .fromVector
+  | _ => throw s!"bad step {s}"
+
+/-- an operand = constructor arguments + history -/
+def asOperand (j : Json) (who : String) : R (MI Rat) := do
+  let D ← natF j "D"
+  let torus ← listF asBool j "torus"
+  let items ← listF asItem j "items"
+  let steps ← listF asStep j "steps"
+  match build D torus items steps with
+  | some a => pure a
+  | none => throw s!"rejected: history of {who}"
+
+def jBlock (b : Block Rat) : Json :=
+  Json.mkObj [("shape", jList jNat b.shape), ("data", jList jRat b.data)]
+
+def jKey (t : Key) : Json := Json.arr #[jNat t.1, jNat t.2]
+
+def jMI (a : MI Rat) : Json :=
+  Json.mkObj [("D", jNat a.D), ("torus", jList jBool a.torus),
+              ("keys", jList jKey (MI.keys a)),
+              ("blocks", jList (fun kv => jBlock kv.2) a.data)]
+
+def tiny : Rat := mkRat 1 100000
+
+/-- `jnp.allclose` element test with `rtol = atol = TINY` -/
+def close (x y : Rat) : Bool :=
+  let d := if x - y < 0 then y - x else x - y
+  let ay := if y < 0 then -y else y
+  decide (d ≤ tiny + tiny * ay)
+
+def binop (name : String) (a b : MI Rat) : R (Option (MI Rat)) :=
+  match name with
+  | "add" => pure (MI.add a b)
+  | "sub" => pure (MI.sub a b)
+  | "add_legacy" => pure (MI.addLegacy a b)
+  | "sub_legacy" => pure (MI.subLegacy a b)
+  | _ => throw s!"bad binop {name}"
+
+def handle (op : String) (j : Json) : R Json := do
   match op with
+  | "c12.build" =>
+    let a ← field j "a" >>= (asOperand · "a")
+    pure (jMI a)
+  | "c12.binop" =>
+    let a ← field j "a" >>= (asOperand · "a")
+    let b ← field j "b" >>= (asOperand · "b")
+    let f ← strF j "f"
+    match ← binop f a b with
+    | some c => pure (jMI c)
+    | none => throw "rejected: operands are not compatible (D, is_torus or key set differ)"
+  | "c12.spec" =>
+    -- blockwise specification, listed for the keys of `a`
+    let a ← field j "a" >>= (asOperand · "a")
+    let b ← field j "b" >>= (asOperand · "b")
+    let f ← strF j "f"
+    let g : Rat → Rat → Rat ← match f with
+      | "add" => pure (· + ·)
+      | "sub" => pure (· - ·)
+      | _ => throw s!"bad binop {f}"
+    let out ← (MI.keys a).mapM (fun t =>
+      match MI.specGet g a b t with
+      | some blk => pure (Json.arr #[jKey t, jBlock blk])
+      | none => throw "spec undefined: key missing in b")
+    pure (Json.arr out.toArray)
+  | "c12.smul" =>
+    let a ← field j "a" >>= (asOperand · "a")
+    let s ← field j "s" >>= asRat
+    pure (jMI (MI.smul a s))
+  | "c12.div" =>
+    let a ← field j "a" >>= (asOperand · "a")
+    let s ← field j "s" >>= asRat
+    if s == 0 then throw "division by zero is outside the model (inf/nan)"
+    pure (jMI (MI.div a s))
+  | "c12.eq" =>
+    let a ← field j "a" >>= (asOperand · "a")
+    let b ← field j "b" >>= (asOperand · "b")
+    pure (jBool (MI.eq close a b))
+  | "c12.keyseq" =>
+    let a ← field j "a" >>= (asOperand · "a")
+    let b ← field j "b" >>= (asOperand · "b")
+    pure (Json.mkObj [("as_sets", jBool (Dict.keysEq a.data b.data)),
+                      ("as_lists", jBool (Dict.keysEqAsLists a.data b.data))])
+  | "c12.to_vector" =>
+    let a ← field j "a" >>= (asOperand · "a")
+    pure (jList jRat (MI.toVector a))
+  | "c12.from_vector" =>
+    let a ← field j "a" >>= (asOperand · "a")
+    let v ← listF asRat j "vec"
+    if v.length != (MI.toVector a).length then throw "rejected: vector length differs from the template size"
+    pure (jMI (MI.fromVector v a))
   | _ => throw s!"unknown op {op}"
 
 end Driver.C12
